@@ -557,6 +557,19 @@ const (
 	llgoAtomicOpLast = llgoAtomicOpBase + int(llssa.OpUMin)
 )
 
+func recvNamedOrNil(typ types.Type) *types.Named {
+	for {
+		switch t := types.Unalias(typ).(type) {
+		case *types.Named:
+			return t
+		case *types.Pointer:
+			typ = t.Elem()
+		default:
+			return nil
+		}
+	}
+}
+
 func recvNamed(typ types.Type) *types.Named {
 retry:
 	switch t := types.Unalias(typ).(type) {
@@ -617,7 +630,13 @@ func (p *context) funcName(fn *ssa.Function) (*types.Package, string, int) {
 			pkg = fnPkg.Pkg
 		} else if recv := fn.Type().(*types.Signature).Recv(); recv != nil && recv.Origin() != recv {
 			/* check if this is an instantiated generic method (receiver's origin differs from receiver itself)*/
-			pkg = recvNamed(recv.Type()).Obj().Pkg()
+			if named := recvNamedOrNil(recv.Type()); named != nil {
+				pkg = named.Obj().Pkg()
+			} else {
+				// wrapper of a method promoted into an unnamed struct: go/types copies the
+				// instantiated receiver variable (and its origin) into the selection
+				pkg = p.goTyps
+			}
 		} else {
 			pkg = p.goTyps
 		}
